@@ -90,7 +90,11 @@ func setLeaf(f reflect.Value, val string) {
 	case reflect.Bool:
 		f.SetBool(val == "1")
 	case reflect.Int, reflect.Int64:
-		f.SetInt(atoi(val))
+		v := atoi(val)
+		if v >= 900 { // tags from 900 up stand for NEGATIVE values: set, but not positive
+			v = -(v - 900)
+		}
+		f.SetInt(v)
 	case reflect.Func:
 		tag := int(atoi(val))
 		if tag == 0 {
@@ -140,6 +144,9 @@ func getLeaf(f reflect.Value) string {
 	case reflect.Bool:
 		return b01(f.Bool())
 	case reflect.Int, reflect.Int64:
+		if f.Int() < 0 {
+			return strconv.FormatInt(900-f.Int(), 10)
+		}
 		return strconv.FormatInt(f.Int(), 10)
 	case reflect.Func:
 		if f.IsNil() {
@@ -216,6 +223,9 @@ func randLeaf(r *rand.Rand, t reflect.Type, side int, set bool) string {
 	default:
 		if !set {
 			return "0"
+		}
+		if (t.Kind() == reflect.Int || t.Kind() == reflect.Int64) && r.Intn(4) == 0 {
+			return strconv.Itoa(900 + 1 + r.Intn(3)) // a negative value
 		}
 		return strconv.Itoa(base + 1 + r.Intn(3))
 	}
